@@ -1,11 +1,2176 @@
-//! C19 -- not built yet (stub so the crate layout is stable).
-use crate::engine::report::{Ctx, Report};
-use serde_json::Value;
+//! C19 -- serialised forms round-trip; no JSON document can crash deserialisation.
+//!
+//! Part 1 (in-process, complete over lattices): faces through Display/FromStr and serde,
+//! writable keys x modifier sets and chords of length <= 3, sizes, images (all crops of
+//! 0..=3 x 0..=3 and 1x1000 images, hand-made strided shapes, hand-built 1/3/4 channel inputs).
+//! Part 2 (worker subprocesses, deviation-bounded): 3 valid seed documents per deserialiser
+//! (Image, Glyph, Text, view tree); every single mutation (quick) and every pair (thorough) of
+//! the mutation alphabet at every JSON node; oracle: deserialisation returns, and whatever
+//! deserialises is laid out under 6 constraints and rendered into a sentinel-bordered canvas.
+use crate::engine::panics::PanicInfo;
+use crate::engine::report::{Ctx, Report, Samples, Tier, Violation, Violations};
+use crate::engine::workers::{self, Spec, WorkerCtx};
+use crate::engine::{catch, util};
+use rayon::prelude::*;
+use serde::de::DeserializeSeed;
+use serde::Deserialize;
+use serde_json::{json, Value};
+use std::cell::Cell as StdCell;
+use std::collections::{BTreeMap, BTreeSet};
+use std::sync::atomic::{AtomicU64, Ordering};
+use std::sync::Arc;
+use std::time::{Duration, Instant};
+use surf_n_term::view::{
+    ArcView, BoxConstraint, Text, Tree, View, ViewCache, ViewContext, ViewDeserializer, ViewLayoutStore,
+};
+use surf_n_term::{
+    Cell, Face, FaceAttrs, Glyph, Image, Key, KeyChord, KeyMod, KeyName, Position, Shape, Size,
+    Surface, SurfaceMut, SurfaceOwned, RGBA,
+};
 
-pub fn run(_ctx: &Ctx) -> Result<Report, String> {
-    Err("C19: check not built yet".into())
+// ---------------------------------------------------------------------------------------------
+// small helpers
+// ---------------------------------------------------------------------------------------------
+
+const B64_ALPHABET: &[u8; 64] = b"ABCDEFGHIJKLMNOPQRSTUVWXYZabcdefghijklmnopqrstuvwxyz0123456789+/";
+
+/// RFC 4648 section 4 encoding, with padding.
+fn b64_encode(bytes: &[u8]) -> String {
+    let mut out = String::with_capacity(bytes.len().div_ceil(3) * 4);
+    for chunk in bytes.chunks(3) {
+        let b0 = chunk[0] as u32;
+        let b1 = *chunk.get(1).unwrap_or(&0) as u32;
+        let b2 = *chunk.get(2).unwrap_or(&0) as u32;
+        let n = (b0 << 16) | (b1 << 8) | b2;
+        out.push(B64_ALPHABET[(n >> 18) as usize & 63] as char);
+        out.push(B64_ALPHABET[(n >> 12) as usize & 63] as char);
+        if chunk.len() > 1 {
+            out.push(B64_ALPHABET[(n >> 6) as usize & 63] as char);
+        } else {
+            out.push('=');
+        }
+        if chunk.len() > 2 {
+            out.push(B64_ALPHABET[n as usize & 63] as char);
+        } else {
+            out.push('=');
+        }
+    }
+    out
 }
 
-pub fn replay(_w: &Value) -> Result<(bool, String), String> {
-    Err("C19: check not built yet".into())
+/// RFC 4648 decoding; padding optional (the statement does not fix whether output is padded).
+fn b64_decode_lenient(s: &str) -> Option<Vec<u8>> {
+    let body = s.trim_end_matches('=');
+    if s.len() - body.len() > 2 {
+        return None;
+    }
+    let mut out = Vec::with_capacity(body.len() * 3 / 4);
+    let mut acc = 0u32;
+    let mut bits = 0;
+    for c in body.bytes() {
+        let v = B64_ALPHABET.iter().position(|a| *a == c)? as u32;
+        acc = (acc << 6) | v;
+        bits += 6;
+        if bits >= 8 {
+            bits -= 8;
+            out.push((acc >> bits) as u8);
+            acc &= (1 << bits) - 1;
+        }
+    }
+    if body.len() % 4 == 1 {
+        return None;
+    }
+    Some(out)
+}
+
+fn squash(msg: &str, max: usize) -> String {
+    let mut out = String::new();
+    let mut last_digit = false;
+    for c in msg.chars() {
+        if c.is_ascii_digit() {
+            if !last_digit {
+                out.push('#');
+            }
+            last_digit = true;
+        } else {
+            last_digit = false;
+            out.push(c);
+        }
+        if out.len() >= max {
+            break;
+        }
+    }
+    out
+}
+
+/// Name of the function enclosing `line` of `file` (nearest preceding `fn name`), "?" if the
+/// source is not readable. Used to make panic keys identify message + file + function.
+fn fn_of(file: &str, line: u32) -> String {
+    thread_local! {
+        static CACHE: std::cell::RefCell<BTreeMap<(String, u32), String>> = const { std::cell::RefCell::new(BTreeMap::new()) };
+    }
+    if let Some(hit) = CACHE.with(|c| c.borrow().get(&(file.to_string(), line)).cloned()) {
+        return hit;
+    }
+    let name = fn_of_uncached(file, line);
+    CACHE.with(|c| c.borrow_mut().insert((file.to_string(), line), name.clone()));
+    name
+}
+
+fn fn_of_uncached(file: &str, line: u32) -> String {
+    let Ok(text) = std::fs::read_to_string(file) else {
+        return "?".into();
+    };
+    let lines: Vec<&str> = text.lines().collect();
+    let mut i = (line as usize).min(lines.len());
+    while i > 0 {
+        i -= 1;
+        let l = lines[i].trim_start();
+        if l.starts_with("//") {
+            continue;
+        }
+        let mut from = 0;
+        while let Some(p) = l[from..].find("fn ") {
+            let at = from + p;
+            let ok_before = at == 0 || l.as_bytes()[at - 1] == b' ';
+            if ok_before {
+                let name: String = l[at + 3..]
+                    .chars()
+                    .take_while(|c| c.is_alphanumeric() || *c == '_')
+                    .collect();
+                if !name.is_empty() {
+                    return name;
+                }
+            }
+            from = at + 3;
+        }
+    }
+    "?".into()
+}
+
+fn short_file(file: &str) -> String {
+    if let Some(i) = file.find("/registry/src/") {
+        let rest = &file[i + "/registry/src/".len()..];
+        // <index-dir>/<crate-version>/src/...
+        let mut it = rest.splitn(2, '/');
+        let _ = it.next();
+        return it.next().unwrap_or(rest).to_string();
+    }
+    if let Some(i) = file.find("/library/") {
+        return format!("std:{}", &file[i + "/library/".len()..]);
+    }
+    match file.rfind("/src/") {
+        Some(i) => file[i + 5..].to_string(),
+        None => file.to_string(),
+    }
+}
+
+/// `<prefix>:panic[<message, digits squashed>]@<file>::<function>`
+fn panic_key(prefix: &str, p: &PanicInfo) -> String {
+    let key = format!(
+        "{}:panic[{}]@{}::{}",
+        prefix,
+        squash(&p.message, 100),
+        short_file(&p.file),
+        fn_of(&p.file, p.line)
+    );
+    // diagnostic only (keys must not depend on line numbers): C19_KEY_LINES=1 splits keys by line
+    if std::env::var_os("C19_KEY_LINES").is_some() {
+        return format!("{key}#L{}", p.line);
+    }
+    key
+}
+
+fn panic_text(p: &PanicInfo) -> String {
+    format!("panicked: {} ({}:{})", p.message, p.file, p.line)
+}
+
+// ---------------------------------------------------------------------------------------------
+// JSON document model (keeps key order and duplicate keys; emits text and serde_json::Value)
+// ---------------------------------------------------------------------------------------------
+
+#[derive(Clone, Debug, PartialEq)]
+enum J {
+    Null,
+    Bool(bool),
+    /// number literal, emitted verbatim
+    Num(String),
+    Str(String),
+    Arr(Vec<J>),
+    Obj(Vec<(String, J)>),
+    /// `n` nested arrays, the innermost one empty
+    Deep(usize),
+}
+
+fn n(lit: &str) -> J {
+    J::Num(lit.to_string())
+}
+fn s(v: &str) -> J {
+    J::Str(v.to_string())
+}
+fn arr(v: Vec<J>) -> J {
+    J::Arr(v)
+}
+fn obj(v: Vec<(&str, J)>) -> J {
+    J::Obj(v.into_iter().map(|(k, v)| (k.to_string(), v)).collect())
+}
+
+fn emit_str(out: &mut String, v: &str) {
+    out.push('"');
+    for c in v.chars() {
+        match c {
+            '"' => out.push_str("\\\""),
+            '\\' => out.push_str("\\\\"),
+            '\n' => out.push_str("\\n"),
+            '\r' => out.push_str("\\r"),
+            '\t' => out.push_str("\\t"),
+            c if (c as u32) < 0x20 => out.push_str(&format!("\\u{:04x}", c as u32)),
+            c => out.push(c),
+        }
+    }
+    out.push('"');
+}
+
+impl J {
+    fn emit(&self, out: &mut String) {
+        match self {
+            J::Null => out.push_str("null"),
+            J::Bool(b) => out.push_str(if *b { "true" } else { "false" }),
+            J::Num(l) => out.push_str(l),
+            J::Str(v) => emit_str(out, v),
+            J::Arr(v) => {
+                out.push('[');
+                for (i, e) in v.iter().enumerate() {
+                    if i > 0 {
+                        out.push(',');
+                    }
+                    e.emit(out);
+                }
+                out.push(']');
+            }
+            J::Obj(v) => {
+                out.push('{');
+                for (i, (k, e)) in v.iter().enumerate() {
+                    if i > 0 {
+                        out.push(',');
+                    }
+                    emit_str(out, k);
+                    out.push(':');
+                    e.emit(out);
+                }
+                out.push('}');
+            }
+            J::Deep(n) => {
+                for _ in 0..*n {
+                    out.push('[');
+                }
+                for _ in 0..*n {
+                    out.push(']');
+                }
+            }
+        }
+    }
+
+    fn text(&self) -> String {
+        let mut out = String::new();
+        self.emit(&mut out);
+        out
+    }
+
+    /// The same document as a `serde_json::Value` (a repeated key keeps its last value).
+    fn value(&self) -> Value {
+        match self {
+            J::Null => Value::Null,
+            J::Bool(b) => Value::Bool(*b),
+            J::Num(l) => serde_json::from_str(l).expect("number literal"),
+            J::Str(v) => Value::String(v.clone()),
+            J::Arr(v) => Value::Array(v.iter().map(|e| e.value()).collect()),
+            J::Obj(v) => {
+                let mut m = serde_json::Map::new();
+                for (k, e) in v {
+                    m.insert(k.clone(), e.value());
+                }
+                Value::Object(m)
+            }
+            J::Deep(n) => {
+                let mut v = Value::Array(vec![]);
+                for _ in 1..*n {
+                    v = Value::Array(vec![v]);
+                }
+                v
+            }
+        }
+    }
+
+    fn child_count(&self) -> usize {
+        match self {
+            J::Arr(v) => v.len(),
+            J::Obj(v) => v.len(),
+            _ => 0,
+        }
+    }
+
+    fn child_mut(&mut self, i: usize) -> Option<&mut J> {
+        match self {
+            J::Arr(v) => v.get_mut(i),
+            J::Obj(v) => v.get_mut(i).map(|e| &mut e.1),
+            _ => None,
+        }
+    }
+
+    fn at_mut(&mut self, path: &[u16]) -> Option<&mut J> {
+        let mut cur = self;
+        for i in path {
+            cur = cur.child_mut(*i as usize)?;
+        }
+        Some(cur)
+    }
+}
+
+// ---------------------------------------------------------------------------------------------
+// seeds
+// ---------------------------------------------------------------------------------------------
+
+#[derive(Clone, Copy, Debug, PartialEq, Eq, PartialOrd, Ord)]
+enum Deser {
+    Image,
+    Glyph,
+    Text,
+    View,
+}
+
+impl Deser {
+    fn name(self) -> &'static str {
+        match self {
+            Deser::Image => "image",
+            Deser::Glyph => "glyph",
+            Deser::Text => "text",
+            Deser::View => "view",
+        }
+    }
+    const ALL: [Deser; 4] = [Deser::Image, Deser::Glyph, Deser::Text, Deser::View];
+}
+
+fn seq_bytes(len: usize, mul: usize, add: usize) -> Vec<u8> {
+    (0..len).map(|i| ((i * mul + add) & 255) as u8).collect()
+}
+
+const ICON: &str = "M1,1 h18 v18 h-18 Z";
+
+fn glyph_small() -> J {
+    obj(vec![("size", arr(vec![n("1"), n("2")])), ("view_box", arr(vec![n("0"), n("0"), n("20"), n("20")])), ("path", s(ICON))])
+}
+
+fn seeds() -> Vec<(Deser, J)> {
+    let img4 = b64_encode(&seq_bytes(24, 37, 11)); // 2x3, 4 channels
+    let img1 = b64_encode(&seq_bytes(4, 61, 5)); // 2x2, 1 channel (padded)
+    let img3 = b64_encode(&seq_bytes(15, 29, 3)); // 1x5, 3 channels
+    let img3b = b64_encode(&seq_bytes(18, 17, 9)); // 2x3, 3 channels
+    let scene = obj(vec![
+        ("type", s("group")),
+        (
+            "children",
+            arr(vec![
+                obj(vec![("type", s("fill")), ("paint", s("#ff0000")), ("path", s("M0,0 h10 v10 Z"))]),
+                obj(vec![
+                    ("type", s("stroke")),
+                    ("width", n("2.0")),
+                    ("line_join", obj(vec![("miter", n("4.0"))])),
+                    ("line_cap", s("round")),
+                    ("paint", s("#00ff0080")),
+                    ("path", s("M0,0 L10,10")),
+                ]),
+            ]),
+        ),
+    ]);
+    let frame = obj(vec![
+        ("margin", arr(vec![n("1"), n("2"), n("3"), n("4")])),
+        ("border_width", arr(vec![n("1"), n("1"), n("1"), n("1")])),
+        ("border_radius", arr(vec![n("10"), n("10"), n("10"), n("10")])),
+        ("border_color", s("#00ff00")),
+        ("padding", arr(vec![n("0"), n("0"), n("0"), n("0")])),
+        ("fill_color", s("red")),
+    ]);
+    let v1 = obj(vec![
+        ("type", s("flex")),
+        ("direction", s("vertical")),
+        ("justify", s("space-between")),
+        (
+            "children",
+            arr(vec![
+                obj(vec![
+                    ("flex", n("1.0")),
+                    ("align", s("center")),
+                    ("face", s("bg=#ff0000/.2")),
+                    (
+                        "view",
+                        obj(vec![
+                            ("type", s("container")),
+                            ("horizontal", s("center")),
+                            ("vertical", obj(vec![("offset", n("-1"))])),
+                            ("margins", obj(vec![("left", n("1")), ("right", n("1")), ("top", n("0")), ("bottom", n("0"))])),
+                            ("size", arr(vec![n("3"), n("10")])),
+                            ("face", s("bg=#222222")),
+                            (
+                                "child",
+                                obj(vec![
+                                    ("type", s("text")),
+                                    (
+                                        "text",
+                                        obj(vec![
+                                            ("face", s("fg=#ffffff,bold")),
+                                            ("text", arr(vec![s("ab"), obj(vec![("glyph", glyph_small())]), s(" c\n")])),
+                                        ]),
+                                    ),
+                                ]),
+                            ),
+                        ]),
+                    ),
+                ]),
+                obj(vec![
+                    ("type", s("tag")),
+                    ("tag", obj(vec![("id", n("7"))])),
+                    (
+                        "view",
+                        obj(vec![
+                            ("type", s("trace-layout")),
+                            ("msg", s("t")),
+                            ("view", obj(vec![("type", s("glyph")), ("path", s(ICON)), ("size", arr(vec![n("1"), n("3")])), ("fallback", s("g"))])),
+                        ]),
+                    ),
+                ]),
+                obj(vec![
+                    ("align", s("end")),
+                    ("view", obj(vec![("type", s("image")), ("size", arr(vec![n("2"), n("2")])), ("channels", n("1")), ("data", s(&img1))])),
+                ]),
+                obj(vec![
+                    ("type", s("image_ascii")),
+                    ("size", obj(vec![("height", n("2")), ("width", n("3"))])),
+                    ("channels", n("3")),
+                    ("data", s(&img3b)),
+                ]),
+                obj(vec![("type", s("ref")), ("ref", n("1"))]),
+                obj(vec![("type", s("custom")), ("arg", n("1"))]),
+            ]),
+        ),
+    ]);
+    let v2 = obj(vec![
+        ("type", s("container")),
+        ("vertical", s("expand")),
+        ("horizontal", s("end")),
+        ("margins", obj(vec![("top", n("1")), ("left", n("2"))])),
+        (
+            "child",
+            obj(vec![
+                ("type", s("flex")),
+                ("justify", s("space-around")),
+                (
+                    "children",
+                    arr(vec![
+                        obj(vec![("flex", n("2.0")), ("view", obj(vec![("type", s("tag")), ("tag", s("a")), ("view", obj(vec![("type", s("text")), ("text", s("left"))]))]))]),
+                        obj(vec![("flex", n("0.5")), ("face", s("bg=blue")), ("align", s("expand")), ("view", obj(vec![("type", s("image")), ("size", arr(vec![n("2"), n("3")])), ("channels", n("4")), ("data", s(&img4))]))]),
+                        obj(vec![("type", s("text")), ("text", arr(vec![s("x"), obj(vec![("text", s("y")), ("face", s("underline"))])]))]),
+                    ]),
+                ),
+            ]),
+        ),
+    ]);
+    let v3 = obj(vec![
+        ("type", s("tag")),
+        ("tag", arr(vec![n("1"), s("two")])),
+        (
+            "view",
+            obj(vec![
+                ("type", s("flex")),
+                ("direction", s("vertical")),
+                ("justify", s("center")),
+                (
+                    "children",
+                    arr(vec![
+                        obj(vec![
+                            ("type", s("container")),
+                            ("vertical", s("shrink")),
+                            ("horizontal", obj(vec![("offset", n("2"))])),
+                            ("size", obj(vec![("height", n("0")), ("width", n("6"))])),
+                            ("margins", obj(vec![("top", n("1")), ("bottom", n("1"))])),
+                            ("child", obj(vec![("type", s("image_ascii")), ("size", arr(vec![n("1"), n("5")])), ("data", s(&img3))])),
+                        ]),
+                        obj(vec![
+                            ("type", s("trace-layout")),
+                            ("view", obj(vec![("type", s("text")), ("text", obj(vec![("wraps", J::Bool(false)), ("text", s("a long line that does not wrap\tX"))]))])),
+                        ]),
+                        obj(vec![("type", s("ref")), ("ref", n("2"))]),
+                        obj(vec![
+                            ("flex", n("1")),
+                            ("view", obj(vec![("type", s("glyph")), ("scene", scene.clone()), ("size", arr(vec![n("2"), n("4")])), ("frame", frame.clone())])),
+                        ]),
+                    ]),
+                ),
+            ]),
+        ),
+    ]);
+    vec![
+        (Deser::Image, obj(vec![("size", arr(vec![n("2"), n("3")])), ("channels", n("4")), ("data", s(&img4))])),
+        (Deser::Image, obj(vec![("size", obj(vec![("height", n("2")), ("width", n("2"))])), ("channels", n("1")), ("data", s(&img1))])),
+        (Deser::Image, obj(vec![("data", s(&img3)), ("comment", arr(vec![s("x"), J::Null])), ("size", arr(vec![n("1"), n("5")]))])),
+        (
+            Deser::Glyph,
+            obj(vec![("path", s(ICON)), ("view_box", arr(vec![n("0"), n("0"), n("20"), n("20")])), ("size", arr(vec![n("1"), n("2")])), ("fallback", s("[]")), ("fill_rule", s("evenodd"))]),
+        ),
+        (Deser::Glyph, obj(vec![("scene", scene), ("size", obj(vec![("height", n("2")), ("width", n("4"))])), ("frame", frame)])),
+        (Deser::Glyph, obj(vec![("path", s("M0,0L10,10")), ("extra", arr(vec![n("1"), n("2"), obj(vec![("a", J::Null)])]))])),
+        (Deser::Text, s("plain string\twith tab\n")),
+        (
+            Deser::Text,
+            arr(vec![
+                s("a"),
+                obj(vec![
+                    ("face", s("fg=#ff0000,bg=black,underline_curly")),
+                    ("text", arr(vec![s("b"), obj(vec![("text", s("c")), ("face", s("bg=#00ff00/.5")), ("wraps", J::Bool(false))])])),
+                ]),
+                s("d"),
+            ]),
+        ),
+        (Deser::Text, obj(vec![("face", s("bold")), ("wraps", J::Bool(true)), ("glyph", obj(vec![("path", s(ICON)), ("size", arr(vec![n("1"), n("3")]))])), ("text", s("ignored"))])),
+        (Deser::View, v1),
+        (Deser::View, v2),
+        (Deser::View, v3),
+    ]
+}
+
+// ---------------------------------------------------------------------------------------------
+// mutation alphabet
+// ---------------------------------------------------------------------------------------------
+
+const DEEP: usize = 10_000;
+
+fn replacements() -> Vec<(&'static str, J)> {
+    vec![
+        ("null", J::Null),
+        ("true", J::Bool(true)),
+        ("0", n("0")),
+        ("-1", n("-1")),
+        ("0.5", n("0.5")),
+        ("1e308", n("1e308")),
+        ("2^63", n("9223372036854775808")),
+        ("2^64-1", n("18446744073709551615")),
+        ("\"\"", s("")),
+        ("\"x\"", s("x")),
+        ("[]", arr(vec![])),
+        ("[[]]", arr(vec![arr(vec![])])),
+        ("{}", obj(vec![])),
+        ("deep-array", J::Deep(DEEP)),
+    ]
+}
+
+const TYPE_NAMES: [&str; 12] = [
+    "text", "trace-layout", "flex", "container", "glyph", "image", "image_ascii", "color", "tag", "ref", "custom", "no-such-view",
+];
+
+/// Sizes for every `size` node. The first three make `channels*h*w` wrap around to exactly the
+/// data length of the three image seeds (so an unchecked product passes the length check).
+fn size_variants() -> Vec<(&'static str, J)> {
+    let a = |h: &str, w: &str| arr(vec![n(h), n(w)]);
+    vec![
+        ("wrap=24/4ch", a("4611686018427387910", "1")), // 4*(2^62+6) = 2^64+24
+        ("wrap=4/1ch", a("9223372036854775810", "2")),  // (2^63+2)*2 = 2^64+4
+        ("wrap=15/3ch", a("6148914691236517207", "3")), // 3*(2^64+5)/3*... = 2^64+5 pixels, *3 = 15
+        ("[2^63,2]", a("9223372036854775808", "2")),
+        ("[2,2^63]", a("2", "9223372036854775808")),
+        ("[2^62,1]", a("4611686018427387904", "1")),
+        ("[2^32,2^32]", a("4294967296", "4294967296")),
+        ("[max,max]", a("18446744073709551615", "18446744073709551615")),
+        ("{h:2^63,w:2}", obj(vec![("height", n("9223372036854775808")), ("width", n("2"))])),
+        ("[0,max]", a("0", "18446744073709551615")),
+        ("[65536,65536]", a("65536", "65536")),
+        ("[0,0]", a("0", "0")),
+        ("[1,1]", a("1", "1")),
+        ("[3,3]", a("3", "3")),
+    ]
+}
+
+const B64_VARIANTS: [&str; 10] = [
+    "invalid-chars", "unpadded", "truncated", "extra-padding", "one-char", "non-ascii", "inner-space", "trailing-newline", "only-padding", "url-safe",
+];
+
+fn b64_variant(k: usize, orig: &str) -> String {
+    match k {
+        0 => "!!!!".to_string(),
+        1 => orig.trim_end_matches('=').to_string(),
+        2 => orig[..orig.len().saturating_sub(1)].to_string(),
+        3 => format!("{orig}===="),
+        4 => "A".to_string(),
+        5 => "\u{e9}\u{e9}".to_string(),
+        6 => {
+            let m = orig.len() / 2;
+            format!("{} {}", &orig[..m], &orig[m..])
+        }
+        7 => format!("{orig}\n"),
+        8 => "====".to_string(),
+        _ => "-_-_".to_string(),
+    }
+}
+
+/// 10 000 levels of nested *objects* are not used: serde_json itself (Value clone / drop /
+/// Value-to-Value deserialisation) overflows an 8 MiB stack on such a value, so no consumer of a
+/// `Value` can be blamed for it. 10 000 nested arrays (cheaper frames) are in the alphabet.
+const NEST_DEPTHS: [usize; 3] = [100, 1000, 100];
+/// the third variant puts an invalid view (`null`) at the bottom of the nest, so that an error
+/// has to travel up through every level
+const NEST_BROKEN: [bool; 3] = [false, false, true];
+
+#[derive(Clone, Debug, PartialEq)]
+enum Op {
+    Rep(usize),
+    Type(usize),
+    Del,
+    Dup,
+    Swap(usize, usize),
+    Size(usize),
+    B64(usize),
+    /// wrap the view object in NEST_DEPTHS[k] levels of `{"type":"tag","tag":null,"view":..}`
+    /// (view documents) or the root in that many `{"text":..}` levels (text documents)
+    Nest(usize),
+}
+
+impl Op {
+    fn kind(&self) -> &'static str {
+        match self {
+            Op::Rep(k) => replacements()[*k].0,
+            Op::Type(_) => "type",
+            Op::Del => "delete-key",
+            Op::Dup => "duplicate-key",
+            Op::Swap(..) => "swap",
+            Op::Size(k) => {
+                if *k < 3 {
+                    "size-wrap-match"
+                } else {
+                    "size"
+                }
+            }
+            Op::B64(_) => "base64",
+            Op::Nest(_) => "nest-views",
+        }
+    }
+    /// too costly to combine (deserialising an n-deep view tree from a Value copies the rest of
+    /// the tree at every level, i.e. is quadratic in n)
+    fn single_only(&self) -> bool {
+        matches!(self, Op::Nest(k) if NEST_DEPTHS[*k] > 100)
+    }
+    /// an ancestor (or the same node) mutated this way wipes out a mutation below it
+    fn destroys_subtree(&self) -> bool {
+        match self {
+            Op::Dup | Op::Swap(..) => false,
+            Op::Nest(k) => NEST_BROKEN[*k],
+            _ => true,
+        }
+    }
+}
+
+#[derive(Clone, Debug)]
+struct Mutation {
+    path: Vec<u16>,
+    op: Op,
+}
+
+fn path_text(doc: &J, path: &[u16]) -> String {
+    let mut out = String::from("$");
+    let mut cur = doc;
+    for i in path {
+        match cur {
+            J::Arr(v) => {
+                out.push_str(&format!("[{i}]"));
+                cur = &v[*i as usize];
+            }
+            J::Obj(v) => {
+                out.push_str(&format!(".{}", v[*i as usize].0));
+                cur = &v[*i as usize].1;
+            }
+            _ => break,
+        }
+    }
+    out
+}
+
+impl Mutation {
+    fn describe(&self, doc: &J) -> String {
+        let p = path_text(doc, &self.path);
+        match &self.op {
+            Op::Rep(k) => format!("{p} := {}", replacements()[*k].0),
+            Op::Type(k) => format!("{p} := \"{}\"", TYPE_NAMES[*k]),
+            Op::Del => format!("delete {p}"),
+            Op::Dup => format!("duplicate {p}"),
+            Op::Swap(i, j) => format!("swap children {i},{j} of {p}"),
+            Op::Size(k) => format!("{p} := size {}", size_variants()[*k].0),
+            Op::B64(k) => format!("{p} := base64 {}", B64_VARIANTS[*k]),
+            Op::Nest(k) => format!("wrap {} in {} levels of tag views / text objects", if NEST_BROKEN[*k] { format!("null (instead of {p})") } else { p }, NEST_DEPTHS[*k]),
+        }
+    }
+}
+
+/// All single mutations of a document, in pre-order of the node paths.
+fn mutations_of(doc: &J, deser: Deser) -> Vec<Mutation> {
+    let is_view = deser == Deser::View;
+    fn walk(node: &J, key: Option<&str>, path: &mut Vec<u16>, is_view: bool, out: &mut Vec<Mutation>) {
+        let push = |out: &mut Vec<Mutation>, op: Op| out.push(Mutation { path: path.clone(), op });
+        for k in 0..replacements().len() {
+            push(out, Op::Rep(k));
+        }
+        if key == Some("type") {
+            for k in 0..TYPE_NAMES.len() {
+                push(out, Op::Type(k));
+            }
+        }
+        if key.is_some() {
+            push(out, Op::Del);
+            push(out, Op::Dup);
+        }
+        if key == Some("size") {
+            for k in 0..size_variants().len() {
+                push(out, Op::Size(k));
+            }
+        }
+        if key == Some("data") && matches!(node, J::Str(_)) {
+            for k in 0..B64_VARIANTS.len() {
+                push(out, Op::B64(k));
+            }
+        }
+        if is_view {
+            if let J::Obj(members) = node {
+                if members.iter().any(|(k, _)| k == "type") && (path.is_empty() || matches!(key, Some("view") | Some("child")) || key.is_none()) {
+                    for k in 0..NEST_DEPTHS.len() {
+                        // the broken-bottom nest only at the root: while the defect it looks for
+                        // is present every such case costs a stall timeout
+                        if !NEST_BROKEN[k] || path.is_empty() {
+                            push(out, Op::Nest(k));
+                        }
+                    }
+                }
+            }
+        }
+        let cn = node.child_count();
+        for i in 0..cn {
+            for j in i + 1..cn {
+                push(out, Op::Swap(i, j));
+            }
+        }
+        match node {
+            J::Arr(v) => {
+                for (i, e) in v.iter().enumerate() {
+                    path.push(i as u16);
+                    walk(e, None, path, is_view, out);
+                    path.pop();
+                }
+            }
+            J::Obj(v) => {
+                for (i, (k, e)) in v.iter().enumerate() {
+                    path.push(i as u16);
+                    walk(e, Some(k), path, is_view, out);
+                    path.pop();
+                }
+            }
+            _ => {}
+        }
+    }
+    let mut out = vec![];
+    walk(doc, None, &mut vec![], is_view, &mut out);
+    if deser == Deser::Text {
+        // root-level mutations come first in pre-order
+        let at = out.iter().position(|m| !m.path.is_empty()).unwrap_or(out.len());
+        for k in (0..NEST_DEPTHS.len()).rev() {
+            out.insert(at, Mutation { path: vec![], op: Op::Nest(k) });
+        }
+    }
+    out
+}
+
+fn apply(doc: &mut J, m: &Mutation) -> bool {
+    match &m.op {
+        Op::Del | Op::Dup => {
+            let Some((last, parent_path)) = m.path.split_last() else {
+                return false;
+            };
+            let Some(J::Obj(members)) = doc.at_mut(parent_path) else {
+                return false;
+            };
+            let i = *last as usize;
+            if i >= members.len() {
+                return false;
+            }
+            if m.op == Op::Del {
+                members.remove(i);
+            } else {
+                let copy = members[i].clone();
+                members.push(copy);
+            }
+            true
+        }
+        op => {
+            let Some(node) = doc.at_mut(&m.path) else {
+                return false;
+            };
+            match op {
+                Op::Rep(k) => *node = replacements()[*k].1.clone(),
+                Op::Type(k) => *node = s(TYPE_NAMES[*k]),
+                Op::Size(k) => *node = size_variants()[*k].1.clone(),
+                Op::B64(k) => {
+                    let J::Str(orig) = node else {
+                        return false;
+                    };
+                    *node = J::Str(b64_variant(*k, orig));
+                }
+                Op::Swap(i, j) => match node {
+                    J::Arr(v) if *j < v.len() => v.swap(*i, *j),
+                    J::Obj(v) if *j < v.len() => {
+                        let (a, b) = v.split_at_mut(*j);
+                        std::mem::swap(&mut a[*i].1, &mut b[0].1);
+                    }
+                    _ => return false,
+                },
+                Op::Nest(k) => {
+                    let mut cur = std::mem::replace(node, J::Null);
+                    let as_view = matches!(&cur, J::Obj(m) if m.iter().any(|(k, _)| k == "type"));
+                    if NEST_BROKEN[*k] {
+                        cur = J::Null;
+                    }
+                    for _ in 0..NEST_DEPTHS[*k] {
+                        cur = if as_view { obj(vec![("type", s("tag")), ("tag", J::Null), ("view", cur)]) } else { obj(vec![("text", cur)]) };
+                    }
+                    *node = cur;
+                }
+                Op::Del | Op::Dup => unreachable!(),
+            }
+            true
+        }
+    }
+}
+
+/// May mutations `a` (earlier in pre-order) and `b` be combined? `b` is applied first.
+fn pair_allowed(a: &Mutation, b: &Mutation) -> bool {
+    if a.path == b.path || a.op.single_only() || b.op.single_only() {
+        return false;
+    }
+    if b.path.starts_with(&a.path) && a.op.destroys_subtree() {
+        return false;
+    }
+    true
+}
+
+struct Plan {
+    seeds: Vec<(Deser, J)>,
+    muts: Vec<Vec<Mutation>>,
+}
+
+#[derive(Clone, Copy, Debug, PartialEq)]
+struct CaseDesc {
+    seed: usize,
+    a: i64,
+    b: i64,
+}
+
+impl CaseDesc {
+    fn encode(&self) -> String {
+        format!("{};{};{}", self.seed, self.a, self.b)
+    }
+    fn decode(text: &str) -> Option<Self> {
+        let mut it = text.split(';');
+        let seed = it.next()?.parse().ok()?;
+        let a = it.next()?.parse().ok()?;
+        let b = it.next()?.parse().ok()?;
+        Some(Self { seed, a, b })
+    }
+}
+
+impl Plan {
+    fn new() -> Self {
+        let seeds = seeds();
+        let muts = seeds.iter().map(|(d, doc)| mutations_of(doc, *d)).collect();
+        Self { seeds, muts }
+    }
+
+    /// Enumerate every case of the tier in a fixed order.
+    fn for_each_case(&self, tier: Tier, mut f: impl FnMut(u64, CaseDesc)) {
+        let mut idx = 0u64;
+        for seed in 0..self.seeds.len() {
+            f(idx, CaseDesc { seed, a: -1, b: -1 });
+            idx += 1;
+            let m = &self.muts[seed];
+            for a in 0..m.len() {
+                f(idx, CaseDesc { seed, a: a as i64, b: -1 });
+                idx += 1;
+            }
+            if tier == Tier::Thorough {
+                for a in 0..m.len() {
+                    for b in a + 1..m.len() {
+                        if pair_allowed(&m[a], &m[b]) {
+                            f(idx, CaseDesc { seed, a: a as i64, b: b as i64 });
+                            idx += 1;
+                        }
+                    }
+                }
+            }
+        }
+    }
+
+    fn build(&self, c: &CaseDesc) -> Option<(Deser, J, Vec<String>)> {
+        let (d, seed_doc) = self.seeds.get(c.seed)?;
+        let mut doc = seed_doc.clone();
+        let mut what = vec![];
+        let m = &self.muts[c.seed];
+        if c.b >= 0 {
+            let mb = m.get(c.b as usize)?;
+            what.push(mb.describe(seed_doc));
+            if !apply(&mut doc, mb) {
+                return None;
+            }
+        }
+        if c.a >= 0 {
+            let ma = m.get(c.a as usize)?;
+            what.insert(0, ma.describe(seed_doc));
+            if !apply(&mut doc, ma) {
+                return None;
+            }
+        }
+        Some((*d, doc, what))
+    }
+
+    fn kinds(&self, c: &CaseDesc) -> String {
+        let m = &self.muts[c.seed];
+        let mut k = vec![];
+        if c.a >= 0 {
+            k.push(m[c.a as usize].op.kind());
+        }
+        if c.b >= 0 {
+            k.push(m[c.b as usize].op.kind());
+        }
+        if k.is_empty() {
+            "pristine".into()
+        } else {
+            k.join("+")
+        }
+    }
+}
+
+// ---------------------------------------------------------------------------------------------
+// executing one hostile document
+// ---------------------------------------------------------------------------------------------
+
+struct RefCache;
+
+impl ViewCache for RefCache {
+    fn get(&self, uid: i64) -> Option<ArcView<'static>> {
+        (uid == 1).then(|| Text::from("ref").arc())
+    }
+}
+
+fn view_deserializer() -> ViewDeserializer<'static> {
+    let mut d = ViewDeserializer::new(None, Some(Arc::new(RefCache)));
+    d.register("custom", |_seed, _value| Text::from("custom").arc());
+    d
+}
+
+fn constraints() -> [BoxConstraint; 6] {
+    [
+        BoxConstraint::loose(Size::new(0, 0)),
+        BoxConstraint::loose(Size::new(1, 1)),
+        BoxConstraint::loose(Size::new(10, 20)),
+        BoxConstraint::tight(Size::new(5, 7)),
+        BoxConstraint::new(Size::new(3, 3), Size::new(12, 40)),
+        BoxConstraint::loose(Size::new(40, 2)),
+    ]
+}
+
+#[derive(Debug, Clone)]
+struct Finding {
+    key: String,
+    what: String,
+}
+
+/// Lay the view out under every constraint and render it into a canvas with a sentinel border.
+fn drive_view(prefix: &str, view: &dyn View, findings: &mut Vec<Finding>, evals: &mut u64) {
+    let ctx = ViewContext::dummy();
+    let sentinel = Cell::new_char(Face::default(), '\u{2592}');
+    for ct in constraints() {
+        *evals += 1;
+        let stage = StdCell::new("layout");
+        let res = catch(|| -> Result<Option<String>, surf_n_term::Error> {
+            let mut store = ViewLayoutStore::new();
+            let layout = view.layout_new(&ctx, ct, &mut store)?;
+            stage.set("render");
+            let max = ct.max();
+            let mut canvas = SurfaceOwned::new_with(Size::new(max.height + 2, max.width + 2), |_| sentinel.clone());
+            {
+                let inner = canvas.view_mut(1..max.height + 1, 1..max.width + 1);
+                view.render(&ctx, inner, layout.view())?;
+            }
+            stage.set("check");
+            for row in 0..max.height + 2 {
+                for col in 0..max.width + 2 {
+                    let border = row == 0 || col == 0 || row == max.height + 1 || col == max.width + 1;
+                    if border && canvas.get(Position::new(row, col)) != Some(&sentinel) {
+                        return Ok(Some(format!("cell ({row},{col}) outside the {}x{} surface handed to render was overwritten", max.height, max.width)));
+                    }
+                }
+            }
+            Ok(None)
+        });
+        match res {
+            Ok(Ok(None)) => {}
+            Ok(Ok(Some(outside))) => findings.push(Finding {
+                key: format!("{prefix}:render:wrote-outside-surface"),
+                what: format!("constraint {:?}: {outside}", ct),
+            }),
+            Ok(Err(e)) => findings.push(Finding {
+                key: format!("{prefix}:{}:error[{}]", stage.get(), squash(&format!("{e:?}"), 60)),
+                what: format!("constraint {:?}: {} returned Err({e:?}) for a view that deserialised successfully", ct, stage.get()),
+            }),
+            Err(p) => findings.push(Finding {
+                key: panic_key(&format!("{prefix}:{}", stage.get()), &p),
+                what: format!("constraint {:?}: {} {}", ct, stage.get(), panic_text(&p)),
+            }),
+        }
+    }
+}
+
+#[derive(Default)]
+struct ExecOut {
+    /// (route, outcome class)
+    classes: Vec<(&'static str, String)>,
+    findings: Vec<Finding>,
+    evals: u64,
+}
+
+fn image_pixels(img: &Image) -> Vec<[u8; 4]> {
+    let mut out = vec![];
+    for row in 0..img.height() {
+        for col in 0..img.width() {
+            out.push(img.get(Position::new(row, col)).map(|c| rgba_arr(*c)).unwrap_or([9, 9, 9, 9]));
+        }
+    }
+    out
+}
+
+fn rgba_arr(c: RGBA) -> [u8; 4] {
+    [c.red(), c.green(), c.blue(), c.alpha()]
+}
+
+/// Deserialise `doc` with `deser` through both routes (JSON text, serde_json::Value).
+fn exec_doc(deser: Deser, doc: &J) -> ExecOut {
+    let mut out = ExecOut::default();
+    let prefix = format!("hostile:{}", deser.name());
+    for route in ["text", "value"] {
+        out.evals += 1;
+        // build the input outside `catch`: it is harness code
+        let text = if route == "text" { Some(doc.text()) } else { None };
+        let value = if route == "value" { Some(doc.value()) } else { None };
+        enum Got {
+            Image(Image),
+            Glyph(Glyph),
+            Text(Text),
+            View(ArcView<'static>),
+        }
+        let vd = view_deserializer();
+        let res = catch(|| -> Result<Got, String> {
+            match (deser, text.as_deref(), value) {
+                (Deser::Image, Some(t), _) => serde_json::from_str::<Image>(t).map(Got::Image).map_err(|e| e.to_string()),
+                (Deser::Image, None, Some(v)) => Image::deserialize(v).map(Got::Image).map_err(|e| e.to_string()),
+                (Deser::Glyph, Some(t), _) => serde_json::from_str::<Glyph>(t).map(Got::Glyph).map_err(|e| e.to_string()),
+                (Deser::Glyph, None, Some(v)) => Glyph::deserialize(v).map(Got::Glyph).map_err(|e| e.to_string()),
+                (Deser::Text, Some(t), _) => serde_json::from_str::<Text>(t).map(Got::Text).map_err(|e| e.to_string()),
+                (Deser::Text, None, Some(v)) => Text::deserialize(v).map(Got::Text).map_err(|e| e.to_string()),
+                (Deser::View, Some(t), _) => {
+                    let mut de = serde_json::Deserializer::from_str(t);
+                    (&vd).deserialize(&mut de).map(Got::View).map_err(|e| e.to_string())
+                }
+                (Deser::View, None, Some(v)) => (&vd).deserialize(v).map(Got::View).map_err(|e| e.to_string()),
+                _ => unreachable!(),
+            }
+        });
+        match res {
+            Err(p) => {
+                out.classes.push((route, "panic".into()));
+                out.findings.push(Finding {
+                    key: panic_key(&format!("{prefix}:deserialize"), &p),
+                    what: format!("deserialising ({route} route) {}", panic_text(&p)),
+                });
+            }
+            Ok(Err(e)) => out.classes.push((route, format!("err:{}", squash(&e, 70)))),
+            Ok(Ok(got)) => {
+                out.classes.push((route, "ok".into()));
+                match &got {
+                    Got::Image(img) => {
+                        // what was accepted must survive a further serialise/deserialise
+                        let again = catch(|| {
+                            let v = serde_json::to_value(img).map_err(|e| e.to_string())?;
+                            serde_json::from_value::<Image>(v).map_err(|e| e.to_string())
+                        });
+                        match again {
+                            Err(p) => out.findings.push(Finding {
+                                key: panic_key(&format!("{prefix}:reserialize"), &p),
+                                what: format!("re-serialising an accepted image {}", panic_text(&p)),
+                            }),
+                            Ok(Err(e)) => out.findings.push(Finding {
+                                key: format!("{prefix}:reserialize:error"),
+                                what: format!("an accepted image does not survive serialise+deserialise: {e}"),
+                            }),
+                            Ok(Ok(img2)) => {
+                                if img2.size() != img.size() || image_pixels(&img2) != image_pixels(img) {
+                                    out.findings.push(Finding {
+                                        key: format!("{prefix}:reserialize:differs"),
+                                        what: format!("an accepted image of size {:?} changes under serialise+deserialise", img.size()),
+                                    });
+                                }
+                            }
+                        }
+                        drive_view(&prefix, img, &mut out.findings, &mut out.evals);
+                    }
+                    Got::Glyph(g) => drive_view(&prefix, g, &mut out.findings, &mut out.evals),
+                    Got::Text(t) => drive_view(&prefix, t, &mut out.findings, &mut out.evals),
+                    Got::View(v) => drive_view(&prefix, v, &mut out.findings, &mut out.evals),
+                }
+                let dropped = catch(move || drop(got));
+                if let Err(p) = dropped {
+                    out.findings.push(Finding {
+                        key: panic_key(&format!("{prefix}:drop"), &p),
+                        what: format!("dropping the value {}", panic_text(&p)),
+                    });
+                }
+            }
+        }
+    }
+    out
+}
+
+const AS_LIMIT_BYTES: u64 = 3 << 30;
+const CASE_STACK_BYTES: usize = 8 << 20;
+const STALL_SECS: u64 = 8;
+
+/// Address-space limit so that a document that makes the library allocate gigabytes aborts the
+/// (child) process instead of exhausting the machine.
+fn limit_address_space() {
+    unsafe {
+        let lim = libc::rlimit {
+            rlim_cur: AS_LIMIT_BYTES,
+            rlim_max: AS_LIMIT_BYTES,
+        };
+        libc::setrlimit(libc::RLIMIT_AS, &lim);
+    }
+}
+
+fn hostile_witness(plan: &Plan, c: &CaseDesc) -> Value {
+    // may run on a small stack (parent's shard threads): do not walk very deep documents here
+    let deep_nest = [c.a, c.b].iter().any(|i| *i >= 0 && plan.muts.get(c.seed).and_then(|m| m.get(*i as usize)).map(|m| m.op.single_only()).unwrap_or(false));
+    if deep_nest {
+        let m = &plan.muts[c.seed][c.a.max(c.b) as usize];
+        return json!({"part": "hostile", "case": c.encode(), "deserialiser": plan.seeds[c.seed].0.name(),
+            "mutations": [m.describe(&plan.seeds[c.seed].1)], "document": "(seed document wrapped in very deep nesting; rebuilt from `case` on replay)"});
+    }
+    match plan.build(c) {
+        Some((d, doc, what)) => {
+            let mut text = doc.text();
+            if text.len() > 1500 {
+                let mut cut = 1500;
+                while !text.is_char_boundary(cut) {
+                    cut -= 1;
+                }
+                text = format!("{}... ({} bytes)", &text[..cut], text.len());
+            }
+            json!({"part": "hostile", "case": c.encode(), "deserialiser": d.name(), "mutations": what, "document": text})
+        }
+        None => json!({"part": "hostile", "case": c.encode()}),
+    }
+}
+
+pub fn worker(ctx: &Ctx, w: WorkerCtx, _extra: &[String]) {
+    limit_address_space();
+    let tier = ctx.tier;
+    let seed = ctx.seed;
+    let handle = std::thread::Builder::new()
+        .stack_size(CASE_STACK_BYTES)
+        .spawn(move || worker_body(tier, seed, w))
+        .expect("spawn case thread");
+    if handle.join().is_err() {
+        std::process::exit(101);
+    }
+}
+
+fn worker_body(tier: Tier, seed: u64, mut w: WorkerCtx) {
+    let plan = Plan::new();
+    let mut seen: BTreeSet<String> = BTreeSet::new();
+    let (shard, shards, resume) = (w.shard as u64, w.shards as u64, w.resume);
+    let mut sampled = 0;
+    let mut done = 0u64;
+    let mut best: BTreeMap<String, usize> = BTreeMap::new();
+    plan.for_each_case(tier, |idx, c| {
+        if idx % shards != shard || idx < resume {
+            return;
+        }
+        let desc = c.encode();
+        w.begin_case(idx, desc.as_bytes());
+        done += 1;
+        if done % 500 == 0 {
+            // counters travel with checkpoints; keep the loss after an abort small
+            w.checkpoint();
+        }
+        let Some((deser, doc, what)) = plan.build(&c) else {
+            w.count("skipped_inapplicable", 1);
+            return;
+        };
+        let out = exec_doc(deser, &doc);
+        let d = deser.name();
+        w.count(&format!("{d}.documents"), 1);
+        w.count(if c.b >= 0 { "pairs" } else if c.a >= 0 { "singles" } else { "pristine" }, 1);
+        w.count("evaluations", out.evals);
+        for (route, class) in &out.classes {
+            let bucket = if class == "ok" { "ok" } else if class == "panic" { "panic" } else { "err" };
+            w.count(&format!("{d}.{route}.{bucket}"), 1);
+            w.count(&format!("{d}.{bucket}"), 1);
+            let cls = format!("{d}:{class}");
+            if seen.insert(cls.clone()) {
+                w.note("class", Value::String(cls));
+            }
+            if c.a < 0 && class.starts_with("err:") {
+                w.note("bad_seed", json!(format!("seed {} ({d}, {route} route) is not accepted: {class}", c.seed)));
+            }
+        }
+        if out.classes.len() == 2 && (out.classes[0].1 == "ok") != (out.classes[1].1 == "ok") {
+            w.count(&format!("{d}.routes_disagree"), 1);
+        }
+        if sampled < 2 && (idx ^ seed).wrapping_mul(0x9e3779b97f4a7c15) >> 54 == 0 {
+            sampled += 1;
+            let mut t = doc.text();
+            if t.len() > 300 {
+                let mut cut = 300;
+                while !t.is_char_boundary(cut) {
+                    cut -= 1;
+                }
+                t.truncate(cut);
+                t.push_str("...");
+            }
+            w.sample(json!({"case": desc, "deserialiser": d, "mutations": what, "document": t,
+                "outcome_text_route": out.classes[0].1, "outcome_value_route": out.classes[1].1}));
+        }
+        let size_estimate = if out.findings.is_empty() { 0 } else { doc.text().len().min(1500) + what.iter().map(|x| x.len()).sum::<usize>() };
+        for f in out.findings {
+            w.count("raw_violations", 1);
+            // per worker, forward a finding only if its key is new or its witness is smaller
+            let len = size_estimate;
+            let better = best.get(&f.key).map(|l| len < *l).unwrap_or(true);
+            if better {
+                best.insert(f.key.clone(), len);
+                w.violation(&Violation {
+                    key: f.key,
+                    what: format!("[{}] {}", what.join(" ; "), f.what),
+                    witness: hostile_witness(&plan, &c),
+                });
+            }
+        }
+    });
+    w.finish();
+}
+
+// ---------------------------------------------------------------------------------------------
+// part 1: round trips
+// ---------------------------------------------------------------------------------------------
+
+type Bad = Vec<(String, String)>;
+
+const CHANNEL_LATTICE: [u8; 5] = [0, 1, 128, 254, 255];
+const ALPHA_LATTICE: [u8; 4] = [0, 1, 128, 255];
+
+fn colour_lattice() -> Vec<Option<[u8; 4]>> {
+    let mut v = vec![None];
+    for r in CHANNEL_LATTICE {
+        for g in CHANNEL_LATTICE {
+            for b in CHANNEL_LATTICE {
+                for a in ALPHA_LATTICE {
+                    v.push(Some([r, g, b, a]));
+                }
+            }
+        }
+    }
+    v
+}
+
+/// indices into `colour_lattice()`: None, opaque black, a mid colour, the last colour
+const FACE_ANCHORS: [usize; 4] = [0, 4, 251, 500];
+const FACE_QUICK_ATTRS: [(u8, u8); 8] = [(0, 0), (31, 5), (1, 1), (2, 2), (4, 3), (8, 4), (16, 5), (21, 0)];
+
+fn make_attrs(flags: u8, underline: u8) -> FaceAttrs {
+    let mut a = FaceAttrs::EMPTY;
+    for (bit, f) in [FaceAttrs::BOLD, FaceAttrs::ITALIC, FaceAttrs::BLINK, FaceAttrs::REVERSE, FaceAttrs::STRIKE].into_iter().enumerate() {
+        if flags >> bit & 1 == 1 {
+            a = a | f;
+        }
+    }
+    match underline {
+        1 => a | FaceAttrs::UNDERLINE,
+        2 => a | FaceAttrs::UNDERLINE_DOUBLE,
+        3 => a | FaceAttrs::UNDERLINE_CURLY,
+        4 => a | FaceAttrs::UNDERLINE_DOTTED,
+        5 => a | FaceAttrs::UNDERLINE_DASHED,
+        _ => a,
+    }
+}
+
+fn make_face(fg: Option<[u8; 4]>, bg: Option<[u8; 4]>, flags: u8, underline: u8) -> Face {
+    let c = |c: Option<[u8; 4]>| c.map(|[r, g, b, a]| RGBA::new(r, g, b, a));
+    Face::new(c(fg), c(bg), make_attrs(flags, underline))
+}
+
+fn face_diff(want: &Face, got: &Face) -> &'static str {
+    if want.fg != got.fg {
+        "fg-differs"
+    } else if want.bg != got.bg {
+        "bg-differs"
+    } else {
+        "attrs-differ"
+    }
+}
+
+fn face_plain(f: &Face) -> String {
+    format!("Face{{fg:{:?}, bg:{:?}, attrs:{:?}}}", f.fg.map(rgba_arr), f.bg.map(rgba_arr), f.attrs)
+}
+
+fn eval_face(face: Face) -> Bad {
+    let mut bad = vec![];
+    match catch(|| {
+        let text = face.to_string();
+        let parsed = text.parse::<Face>();
+        (text, parsed)
+    }) {
+        Err(p) => bad.push((panic_key("face:display-fromstr", &p), panic_text(&p))),
+        Ok((text, Err(e))) => bad.push(("face:display-fromstr:error".into(), format!("{} prints as {text:?} which does not parse: {e:?}", face_plain(&face)))),
+        Ok((text, Ok(got))) => {
+            if got != face {
+                bad.push((
+                    format!("face:display-fromstr:{}", face_diff(&face, &got)),
+                    format!("expected {} back; it prints as {text:?} which parses to {}", face_plain(&face), face_plain(&got)),
+                ));
+            }
+        }
+    }
+    match catch(|| {
+        let v = serde_json::to_value(face).map_err(|e| e.to_string())?;
+        let back = serde_json::from_value::<Face>(v.clone()).map_err(|e| e.to_string());
+        Ok::<_, String>((v, back))
+    }) {
+        Err(p) => bad.push((panic_key("face:serde", &p), panic_text(&p))),
+        Ok(Err(e)) => bad.push(("face:serde:serialize-error".into(), format!("{} does not serialise: {e}", face_plain(&face)))),
+        Ok(Ok((v, Err(e)))) => bad.push(("face:serde:error".into(), format!("{} serialises to {v} which does not deserialise: {e}", face_plain(&face)))),
+        Ok(Ok((v, Ok(got)))) => {
+            if !v.is_string() {
+                bad.push(("face:serde:not-a-string".into(), format!("{} serialises to {v}, expected a JSON string", face_plain(&face))));
+            }
+            if got != face {
+                bad.push((
+                    format!("face:serde:{}", face_diff(&face, &got)),
+                    format!("expected {} back; it serialises to {v} which deserialises to {}", face_plain(&face), face_plain(&got)),
+                ));
+            }
+        }
+    }
+    bad
+}
+
+fn face_witness(fg: Option<[u8; 4]>, bg: Option<[u8; 4]>, flags: u8, underline: u8) -> Value {
+    json!({"part": "face", "fg": fg, "bg": bg, "flags": flags, "underline": underline})
+}
+
+// ----- keys -----
+
+fn name_code(n: &KeyName) -> String {
+    match n {
+        KeyName::Char(c) => format!("Char:{}", *c as u32),
+        KeyName::F(i) => format!("F:{i}"),
+        KeyName::Backspace => "Backspace".into(),
+        KeyName::Delete => "Delete".into(),
+        KeyName::Insert => "Insert".into(),
+        KeyName::Down => "Down".into(),
+        KeyName::End => "End".into(),
+        KeyName::Enter => "Enter".into(),
+        KeyName::Esc => "Esc".into(),
+        KeyName::Home => "Home".into(),
+        KeyName::Left => "Left".into(),
+        KeyName::MouseLeft => "MouseLeft".into(),
+        KeyName::MouseMiddle => "MouseMiddle".into(),
+        KeyName::MouseMove => "MouseMove".into(),
+        KeyName::MouseRight => "MouseRight".into(),
+        KeyName::MouseWheelDown => "MouseWheelDown".into(),
+        KeyName::MouseWheelUp => "MouseWheelUp".into(),
+        KeyName::PageDown => "PageDown".into(),
+        KeyName::PageUp => "PageUp".into(),
+        KeyName::Right => "Right".into(),
+        KeyName::Tab => "Tab".into(),
+        KeyName::Up => "Up".into(),
+    }
+}
+
+fn all_plain_names() -> Vec<KeyName> {
+    use KeyName::*;
+    vec![Backspace, Delete, Insert, Down, End, Enter, Esc, Home, Left, MouseLeft, MouseMiddle, MouseMove, MouseRight, MouseWheelDown, MouseWheelUp, PageDown, PageUp, Right, Tab, Up]
+}
+
+fn name_from_code(code: &str) -> Option<KeyName> {
+    if let Some(c) = code.strip_prefix("Char:") {
+        return Some(KeyName::Char(char::from_u32(c.parse().ok()?)?));
+    }
+    if let Some(i) = code.strip_prefix("F:") {
+        return Some(KeyName::F(i.parse().ok()?));
+    }
+    all_plain_names().into_iter().find(|n| name_code(n) == code)
+}
+
+const PUNCT: &str = "`-=[]\\;,./";
+const F_LATTICE: [usize; 14] = [0, 1, 2, 9, 10, 11, 12, 24, 35, 99, 255, 65535, 1 << 32, usize::MAX];
+
+/// Key names that have a spelling in the chord syntax (named keys, `space`, a-z, 0-9, the ten
+/// punctuation keys, `f<n>`).
+fn writable_names() -> Vec<KeyName> {
+    use KeyName::*;
+    let mut v = vec![Left, Up, Right, Down, PageUp, PageDown, End, Home, Tab, Enter, Esc, Char(' '), Backspace, Delete, Insert];
+    v.extend(('a'..='z').map(Char));
+    v.extend(('0'..='9').map(Char));
+    v.extend(PUNCT.chars().map(Char));
+    v.extend(F_LATTICE.iter().map(|i| F(*i)));
+    v
+}
+
+/// Names without a spelling of their own: the statement does not cover them; only counted.
+fn unwritable_names() -> Vec<KeyName> {
+    use KeyName::*;
+    vec![MouseLeft, MouseMiddle, MouseMove, MouseRight, MouseWheelDown, MouseWheelUp, Char('\t'), Char('\n'), Char('A'), Char('+'), Char('"'), Char('\u{e9}'), Char('!')]
+}
+
+/// The 256 modifier sets that can be spelled (NUMLOCK, bit 128, has no name).
+fn writable_mods() -> Vec<u32> {
+    (0..512u32).filter(|b| b & 128 == 0).collect()
+}
+
+fn chord_witness(keys: &[Key]) -> Value {
+    let ks: Vec<Value> = keys
+        .iter()
+        .map(|k| {
+            let bits = (0..9).filter(|b| k.mode.contains(KeyMod::from_bits(1 << b))).fold(0u32, |a, b| a | 1 << b);
+            json!({"name": name_code(&k.name), "mods": bits})
+        })
+        .collect();
+    json!({"part": "chord", "keys": ks})
+}
+
+fn eval_chord(keys: &[Key]) -> Bad {
+    let mut bad = vec![];
+    let chord = KeyChord::new(keys.to_vec());
+    match catch(|| {
+        let text = chord.to_string();
+        let parsed = text.parse::<KeyChord>();
+        (text, parsed)
+    }) {
+        Err(p) => bad.push((panic_key("chord:display-fromstr", &p), panic_text(&p))),
+        Ok((text, Err(e))) => bad.push(("chord:display-fromstr:error".into(), format!("chord {} prints as {text:?} which does not parse: {e:?}", chord_witness(keys)))),
+        Ok((text, Ok(got))) => {
+            if got != chord {
+                bad.push(("chord:display-fromstr:differs".into(), format!("chord {} prints as {text:?} which parses to {:?}", chord_witness(keys), chord_witness(got.keys()))));
+            }
+        }
+    }
+    match catch(|| {
+        let v = serde_json::to_value(&chord).map_err(|e| e.to_string())?;
+        let back = serde_json::from_value::<KeyChord>(v.clone()).map_err(|e| e.to_string());
+        Ok::<_, String>((v, back))
+    }) {
+        Err(p) => bad.push((panic_key("chord:serde", &p), panic_text(&p))),
+        Ok(Err(e)) => bad.push(("chord:serde:serialize-error".into(), e)),
+        Ok(Ok((v, Err(e)))) => bad.push(("chord:serde:error".into(), format!("chord {} serialises to {v} which does not deserialise: {e}", chord_witness(keys)))),
+        Ok(Ok((v, Ok(got)))) => {
+            if !v.is_string() {
+                bad.push(("chord:serde:not-a-string".into(), format!("chord serialises to {v}")));
+            }
+            if got != chord {
+                bad.push(("chord:serde:differs".into(), format!("chord {} serialises to {v} which deserialises to {}", chord_witness(keys), chord_witness(got.keys()))));
+            }
+        }
+    }
+    if keys.len() == 1 {
+        let key = keys[0];
+        match catch(|| {
+            let text = key.to_string();
+            let parsed = text.parse::<Key>();
+            (text, parsed)
+        }) {
+            Err(p) => bad.push((panic_key("key:display-fromstr", &p), panic_text(&p))),
+            Ok((text, Err(e))) => bad.push(("key:display-fromstr:error".into(), format!("key prints as {text:?} which does not parse: {e:?}"))),
+            Ok((text, Ok(got))) => {
+                if got != key {
+                    bad.push(("key:display-fromstr:differs".into(), format!("key prints as {text:?} which parses to {}", chord_witness(&[got]))));
+                }
+            }
+        }
+    }
+    bad
+}
+
+/// A chord written as text (the direction serde deserialisation takes): must not panic, and
+/// what it parses to must round-trip.
+fn eval_chord_text(text: &str) -> (Bad, &'static str) {
+    let mut bad = vec![];
+    let outcome;
+    match catch(|| serde_json::from_value::<KeyChord>(Value::String(text.to_string()))) {
+        Err(p) => {
+            outcome = "panic";
+            bad.push((panic_key("chord-text:deserialize", &p), format!("deserialising the chord {text:?} {}", panic_text(&p))));
+        }
+        Ok(Err(_)) => outcome = "error",
+        Ok(Ok(chord)) => {
+            outcome = "ok";
+            for (k, w) in eval_chord(chord.keys()) {
+                bad.push((format!("chord-text:{k}"), w));
+            }
+        }
+    }
+    (bad, outcome)
+}
+
+fn chord_texts() -> Vec<String> {
+    let mut v = vec![];
+    for d in ['0', '1', '9'] {
+        for len in 1..=30 {
+            v.push(format!("f{}", d.to_string().repeat(len)));
+            v.push(format!("ctrl+F{} a", d.to_string().repeat(len)));
+        }
+    }
+    v.push("f18446744073709551615".into());
+    v.push("f18446744073709551616".into());
+    v
+}
+
+// ----- sizes -----
+
+const SIZE_LATTICE: [usize; 5] = [0, 1, 2, 65535, usize::MAX];
+
+fn eval_size(h: usize, w: usize) -> Bad {
+    let size = Size::new(h, w);
+    let mut bad = vec![];
+    let r = catch(|| {
+        let mut out: Bad = vec![];
+        let v = serde_json::to_value(size).map_err(|e| e.to_string())?;
+        match serde_json::from_value::<Size>(v.clone()) {
+            Ok(got) if got == size => {}
+            other => out.push(("size:serde-value:differs".into(), format!("{size:?} -> {v} -> {other:?}"))),
+        }
+        let t = serde_json::to_string(&size).map_err(|e| e.to_string())?;
+        match serde_json::from_str::<Size>(&t) {
+            Ok(got) if got == size => {}
+            other => out.push(("size:serde-text:differs".into(), format!("{size:?} -> {t} -> {other:?}"))),
+        }
+        // the two hand-written spellings used by the library's own documents
+        for doc in [format!("[{h},{w}]"), format!("{{\"height\":{h},\"width\":{w}}}"), format!("{{\"width\":{w},\"height\":{h}}}")] {
+            match serde_json::from_str::<Size>(&doc) {
+                Ok(got) if got == size => {}
+                other => out.push(("size:hand-built:differs".into(), format!("{doc} -> {other:?}, expected {size:?}"))),
+            }
+        }
+        Ok::<_, String>(out)
+    });
+    match r {
+        Err(p) => bad.push((panic_key("size", &p), panic_text(&p))),
+        Ok(Err(e)) => bad.push(("size:serialize-error".into(), e)),
+        Ok(Ok(out)) => bad.extend(out),
+    }
+    bad
+}
+
+// ----- images -----
+
+/// pixel i of a base image (distinct for i < 65536, all alpha classes)
+fn pix(i: usize) -> [u8; 4] {
+    const A: [u8; 6] = [255, 0, 1, 128, 254, 77];
+    [((i * 7 + 1) & 255) as u8, (((i >> 8) * 91 + i * 13 + 2) & 255) as u8, ((i * 29 + 3) & 255) as u8, A[i % 6]]
+}
+
+fn base_data(len: usize) -> Arc<[RGBA]> {
+    (0..len).map(|i| { let [r, g, b, a] = pix(i); RGBA::new(r, g, b, a) }).collect::<Vec<_>>().into()
+}
+
+#[derive(Clone, Debug)]
+enum ImgCase {
+    /// base h x w, crop rows r0..r1, cols c0..c1
+    Crop { h: usize, w: usize, r0: usize, r1: usize, c0: usize, c1: usize },
+    /// hand-made shape over `len` base pixels
+    Shape { len: usize, start: usize, height: usize, width: usize, row_stride: usize, col_stride: usize },
+}
+
+impl ImgCase {
+    fn json(&self) -> Value {
+        match self {
+            ImgCase::Crop { h, w, r0, r1, c0, c1 } => json!({"part": "image", "h": h, "w": w, "crop": [r0, r1, c0, c1]}),
+            ImgCase::Shape { len, start, height, width, row_stride, col_stride } => {
+                json!({"part": "image", "len": len, "shape": {"start": start, "height": height, "width": width, "row_stride": row_stride, "col_stride": col_stride}})
+            }
+        }
+    }
+    fn from_json(v: &Value) -> Option<Self> {
+        let u = |x: &Value| x.as_u64().map(|x| x as usize);
+        if let Some(c) = v.get("crop") {
+            return Some(ImgCase::Crop { h: u(&v["h"])?, w: u(&v["w"])?, r0: u(&c[0])?, r1: u(&c[1])?, c0: u(&c[2])?, c1: u(&c[3])? });
+        }
+        let sh = v.get("shape")?;
+        Some(ImgCase::Shape { len: u(&v["len"])?, start: u(&sh["start"])?, height: u(&sh["height"])?, width: u(&sh["width"])?, row_stride: u(&sh["row_stride"])?, col_stride: u(&sh["col_stride"])? })
+    }
+
+    /// the image under test and, from plain arithmetic, its expected (height, width, pixels);
+    /// for an empty crop the expected size is left to the library (only `pixels` is fixed)
+    fn build(&self) -> (Image, Option<(usize, usize)>, Vec<[u8; 4]>) {
+        match *self {
+            ImgCase::Crop { h, w, r0, r1, c0, c1 } => {
+                let base = Image::from_parts(base_data(h * w), Shape::from(Size::new(h, w)));
+                let img = base.crop(r0..r1, c0..c1);
+                if r0 >= r1 || c0 >= c1 {
+                    return (img, None, vec![]);
+                }
+                let mut px = vec![];
+                for r in r0..r1 {
+                    for c in c0..c1 {
+                        px.push(pix(r * w + c));
+                    }
+                }
+                (img, Some((r1 - r0, c1 - c0)), px)
+            }
+            ImgCase::Shape { len, start, height, width, row_stride, col_stride } => {
+                let end = if height == 0 || width == 0 { start } else { start + (height - 1) * row_stride + (width - 1) * col_stride + 1 };
+                let shape = Shape { start, end, width, height, row_stride, col_stride };
+                let img = Image::from_parts(base_data(len), shape);
+                let mut px = vec![];
+                for r in 0..height {
+                    for c in 0..width {
+                        px.push(pix(start + r * row_stride + c * col_stride));
+                    }
+                }
+                (img, Some((height, width)), px)
+            }
+        }
+    }
+}
+
+fn image_cases() -> Vec<ImgCase> {
+    let mut v = vec![];
+    for h in 0..=3usize {
+        for w in 0..=3usize {
+            for r0 in 0..=h {
+                for r1 in r0..=h {
+                    for c0 in 0..=w {
+                        for c1 in c0..=w {
+                            v.push(ImgCase::Crop { h, w, r0, r1, c0, c1 });
+                        }
+                    }
+                }
+            }
+        }
+    }
+    let cols = [0usize, 1, 2, 499, 500, 998, 999, 1000];
+    for (i, c0) in cols.iter().enumerate() {
+        for c1 in &cols[i..] {
+            for (r0, r1) in [(0, 1), (0, 0), (1, 1)] {
+                v.push(ImgCase::Crop { h: 1, w: 1000, r0, r1, c0: *c0, c1: *c1 });
+            }
+        }
+    }
+    // hand-made shapes: offsets, padded rows, column strides, transposed
+    for height in 0..=3usize {
+        for width in 0..=3usize {
+            for start in [0usize, 1] {
+                for col_stride in [1usize, 2] {
+                    for pad in [0usize, 1] {
+                        v.push(ImgCase::Shape { len: 40, start, height, width, row_stride: width * col_stride + pad, col_stride });
+                    }
+                }
+                // transposed: consecutive rows are adjacent, columns are `height` apart
+                v.push(ImgCase::Shape { len: 40, start, height, width, row_stride: 1, col_stride: height.max(1) });
+            }
+        }
+    }
+    v
+}
+
+fn eval_image(case: &ImgCase) -> Bad {
+    let mut bad = vec![];
+    let (img, want_size, want_px) = case.build();
+    let r = catch(|| {
+        let v = serde_json::to_value(&img).map_err(|e| format!("serialize: {e}"))?;
+        let back = serde_json::from_value::<Image>(v.clone()).map_err(|e| format!("deserialize {v}: {e}"))?;
+        Ok::<_, String>((v, back))
+    });
+    match r {
+        Err(p) => bad.push((panic_key("image:roundtrip", &p), panic_text(&p))),
+        Ok(Err(e)) => bad.push(("image:roundtrip:error".into(), e)),
+        Ok(Ok((v, back))) => {
+            let (h, w) = want_size.unwrap_or((img.height(), img.width()));
+            if (back.height(), back.width()) != (h, w) {
+                bad.push(("image:roundtrip:size-differs".into(), format!("expected {h}x{w}, got {}x{} from {v}", back.height(), back.width())));
+            } else {
+                let got = image_pixels(&back);
+                if got != want_px {
+                    let i = got.iter().zip(&want_px).position(|(a, b)| a != b).unwrap_or(got.len().min(want_px.len()));
+                    bad.push(("image:roundtrip:pixels-differ".into(), format!("{h}x{w}: pixel #{i} expected {:?} got {:?}", want_px.get(i), got.get(i))));
+                }
+            }
+            // the serialised form itself, read with the reference base64 decoder
+            let ok_form = v["channels"] == json!(4) && v["size"] == json!({"height": h, "width": w});
+            let data = v["data"].as_str().and_then(b64_decode_lenient);
+            let want_bytes: Vec<u8> = want_px.iter().flatten().copied().collect();
+            if !ok_form || data.as_deref() != Some(&want_bytes[..]) {
+                bad.push(("image:serialized-form".into(), format!("expected size {h}x{w}, channels 4 and base64 of {} RGBA bytes, got {}", want_bytes.len(), squash(&v.to_string(), 200))));
+            }
+        }
+    }
+    bad
+}
+
+fn input_byte(i: usize) -> u8 {
+    ((i * 37 + 11) & 255) as u8
+}
+
+/// hand-built document -> expected pixels, from the documented layout (row-major, `channels`
+/// bytes per pixel; 1 = grey, 3 = RGB opaque, 4 = RGBA)
+fn eval_image_input(channels: usize, h: usize, w: usize, form: usize) -> Bad {
+    let mut bad = vec![];
+    let bytes: Vec<u8> = (0..channels * h * w).map(input_byte).collect();
+    let data = b64_encode(&bytes);
+    let size_arr = format!("[{h},{w}]");
+    let size_map = format!("{{\"height\":{h},\"width\":{w}}}");
+    let text = match form {
+        0 => format!("{{\"size\":{size_arr},\"channels\":{channels},\"data\":\"{data}\"}}"),
+        1 => format!("{{\"data\":\"{data}\",\"size\":{size_map},\"channels\":{channels}}}"),
+        _ => format!("{{\"channels\":{channels},\"data\":\"{data}\",\"extra\":[1,{{}}],\"size\":{size_arr}}}"),
+    };
+    let want: Vec<[u8; 4]> = (0..h * w)
+        .map(|p| match channels {
+            1 => [bytes[p], bytes[p], bytes[p], 255],
+            3 => [bytes[3 * p], bytes[3 * p + 1], bytes[3 * p + 2], 255],
+            _ => [bytes[4 * p], bytes[4 * p + 1], bytes[4 * p + 2], bytes[4 * p + 3]],
+        })
+        .collect();
+    for route in ["text", "value"] {
+        let r = catch(|| {
+            if route == "text" {
+                serde_json::from_str::<Image>(&text).map_err(|e| e.to_string())
+            } else {
+                let v: Value = serde_json::from_str(&text).map_err(|e| e.to_string())?;
+                serde_json::from_value::<Image>(v).map_err(|e| e.to_string())
+            }
+        });
+        match r {
+            Err(p) => bad.push((panic_key("image-input", &p), panic_text(&p))),
+            Ok(Err(e)) => bad.push((format!("image-input:{channels}ch:rejected"), format!("valid {channels}-channel {h}x{w} document rejected ({route}): {e}"))),
+            Ok(Ok(img)) => {
+                if (img.height(), img.width()) != (h, w) {
+                    bad.push((format!("image-input:{channels}ch:size-differs"), format!("expected {h}x{w} got {}x{}", img.height(), img.width())));
+                } else {
+                    let got = image_pixels(&img);
+                    if got != want {
+                        let i = got.iter().zip(&want).position(|(a, b)| a != b).unwrap_or(0);
+                        bad.push((format!("image-input:{channels}ch:pixels-differ"), format!("{h}x{w} ({route}): pixel #{i} expected {:?} got {:?}", want.get(i), got.get(i))));
+                    }
+                }
+            }
+        }
+    }
+    bad
+}
+
+fn image_input_sizes() -> Vec<(usize, usize)> {
+    let mut v = vec![];
+    for h in 0..=3 {
+        for w in 0..=3 {
+            v.push((h, w));
+        }
+    }
+    v.extend([(1, 1000), (1000, 1), (5, 7), (13, 10)]);
+    v
+}
+
+// ---------------------------------------------------------------------------------------------
+// driver
+// ---------------------------------------------------------------------------------------------
+
+struct Part1 {
+    counts: BTreeMap<&'static str, u64>,
+    evaluations: u64,
+    unwritable_outcomes: BTreeMap<String, u64>,
+    chord_text_outcomes: BTreeMap<&'static str, u64>,
+}
+
+fn run_part1(ctx: &Ctx, viol: &Violations, samples: &Samples) -> Part1 {
+    let mut counts: BTreeMap<&'static str, u64> = BTreeMap::new();
+    let evals = AtomicU64::new(0);
+
+    // faces
+    let colours = colour_lattice();
+    let full = ctx.tier == Tier::Thorough;
+    let face_cases = AtomicU64::new(0);
+    (0..colours.len()).into_par_iter().for_each(|fi| {
+        let fg = colours[fi];
+        let mut local = 0u64;
+        for (bi, bg) in colours.iter().enumerate() {
+            // quick tier: every (fg, bg) pair with 8 attribute sets, and every attribute set
+            // with every pair in which fg or bg is one of 4 anchor colours
+            let all_attrs = full || FACE_ANCHORS.contains(&fi) || FACE_ANCHORS.contains(&bi);
+            for flags in 0..32u8 {
+                for ul in 0..6u8 {
+                    if !all_attrs && !FACE_QUICK_ATTRS.contains(&(flags, ul)) {
+                        continue;
+                    }
+                    local += 1;
+                    let face = make_face(fg, *bg, flags, ul);
+                    for (key, what) in eval_face(face) {
+                        viol.add(key, what, face_witness(fg, *bg, flags, ul));
+                    }
+                    let id = ((fi * colours.len() + bi) * 192 + flags as usize * 6 + ul as usize) as u64;
+                    if samples.wants(id + 1000) {
+                        samples.offer(id + 1000, || json!({"part": "face", "text": face.to_string()}));
+                    }
+                }
+            }
+        }
+        face_cases.fetch_add(local, Ordering::Relaxed);
+    });
+    counts.insert("faces", face_cases.load(Ordering::Relaxed));
+    evals.fetch_add(2 * face_cases.load(Ordering::Relaxed), Ordering::Relaxed);
+
+    // keys x modifier sets
+    let names = writable_names();
+    let mods = writable_mods();
+    let key_cases = AtomicU64::new(0);
+    names.par_iter().for_each(|name| {
+        for m in &mods {
+            let key = Key::new(*name, KeyMod::from_bits(*m));
+            for (k, what) in eval_chord(&[key]) {
+                viol.add(k, what, chord_witness(&[key]));
+            }
+            key_cases.fetch_add(1, Ordering::Relaxed);
+        }
+    });
+    counts.insert("keys", key_cases.load(Ordering::Relaxed));
+    evals.fetch_add(3 * key_cases.load(Ordering::Relaxed), Ordering::Relaxed);
+    samples.force(json!({"part": "chord", "text": KeyChord::new(vec![Key::new(KeyName::F(12), KeyMod::from_bits(7)), Key::new(KeyName::Char(' '), KeyMod::EMPTY)]).to_string()}));
+
+    // chords of length <= 3 over two 8-key sets
+    let all = KeyMod::from_bits(511 & !128);
+    let sets: [Vec<Key>; 2] = [
+        vec![
+            Key::new(KeyName::Char('x'), KeyMod::CTRL),
+            Key::new(KeyName::Char('a'), KeyMod::EMPTY),
+            Key::new(KeyName::F(12), KeyMod::ALT | KeyMod::SHIFT),
+            Key::new(KeyName::Char(' '), KeyMod::EMPTY),
+            Key::new(KeyName::Enter, KeyMod::EMPTY),
+            Key::new(KeyName::Char('/'), all),
+            Key::new(KeyName::F(0), KeyMod::EMPTY),
+            Key::new(KeyName::Tab, KeyMod::SHIFT),
+        ],
+        vec![
+            Key::new(KeyName::Char('\\'), KeyMod::EMPTY),
+            Key::new(KeyName::Char('-'), KeyMod::META),
+            Key::new(KeyName::Esc, KeyMod::EMPTY),
+            Key::new(KeyName::PageDown, KeyMod::PRESS),
+            Key::new(KeyName::F(usize::MAX), KeyMod::HYPER),
+            Key::new(KeyName::Char('0'), KeyMod::CAPSLOCK),
+            Key::new(KeyName::Backspace, KeyMod::SUPER | KeyMod::CTRL),
+            Key::new(KeyName::Char('f'), KeyMod::EMPTY),
+        ],
+    ];
+    let mut chords: Vec<Vec<Key>> = vec![];
+    for set in &sets {
+        for a in set {
+            chords.push(vec![*a]);
+            for b in set {
+                chords.push(vec![*a, *b]);
+                for c in set {
+                    chords.push(vec![*a, *b, *c]);
+                }
+            }
+        }
+    }
+    chords.par_iter().for_each(|ch| {
+        for (k, what) in eval_chord(ch) {
+            viol.add(k, what, chord_witness(ch));
+        }
+    });
+    counts.insert("chords", chords.len() as u64);
+    evals.fetch_add(2 * chords.len() as u64, Ordering::Relaxed);
+
+    // names outside the syntax: observed, not judged
+    let mut unwritable_outcomes: BTreeMap<String, u64> = BTreeMap::new();
+    for name in unwritable_names() {
+        let key = Key::new(name, KeyMod::EMPTY);
+        let o = match catch(|| key.to_string().parse::<Key>()) {
+            Err(_) => "panic",
+            Ok(Err(_)) => "print-does-not-parse",
+            Ok(Ok(k)) if k == key => "round-trips",
+            Ok(Ok(_)) => "parses-to-another-key",
+        };
+        *unwritable_outcomes.entry(o.to_string()).or_insert(0) += 1;
+    }
+
+    // chords written as text
+    let mut chord_text_outcomes: BTreeMap<&'static str, u64> = BTreeMap::new();
+    let texts = chord_texts();
+    for t in &texts {
+        let (bad, outcome) = eval_chord_text(t);
+        *chord_text_outcomes.entry(outcome).or_insert(0) += 1;
+        for (k, what) in bad {
+            viol.add(k, what, json!({"part": "chord-text", "text": t}));
+        }
+    }
+    counts.insert("chord_texts", texts.len() as u64);
+    evals.fetch_add(texts.len() as u64, Ordering::Relaxed);
+
+    // sizes
+    let mut nsizes = 0;
+    for h in SIZE_LATTICE {
+        for w in SIZE_LATTICE {
+            nsizes += 1;
+            for (k, what) in eval_size(h, w) {
+                viol.add(k, what, json!({"part": "size", "h": h.to_string(), "w": w.to_string()}));
+            }
+        }
+    }
+    counts.insert("sizes", nsizes);
+    evals.fetch_add(5 * nsizes, Ordering::Relaxed);
+
+    // images
+    let cases = image_cases();
+    cases.par_iter().for_each(|c| {
+        for (k, what) in eval_image(c) {
+            viol.add(k, format!("{}: {what}", c.json()), c.json());
+        }
+    });
+    counts.insert("image_views", cases.len() as u64);
+    evals.fetch_add(cases.len() as u64, Ordering::Relaxed);
+    samples.force(cases[cases.len() / 3].json());
+    let mut inputs = vec![];
+    for ch in [1usize, 3, 4] {
+        for (h, w) in image_input_sizes() {
+            for form in 0..3 {
+                inputs.push((ch, h, w, form));
+            }
+        }
+    }
+    inputs.par_iter().for_each(|(ch, h, w, form)| {
+        for (k, what) in eval_image_input(*ch, *h, *w, *form) {
+            viol.add(k, what, json!({"part": "image-input", "channels": ch, "h": h, "w": w, "form": form}));
+        }
+    });
+    counts.insert("image_inputs", inputs.len() as u64);
+    evals.fetch_add(2 * inputs.len() as u64, Ordering::Relaxed);
+    Part1 { counts, evaluations: evals.load(Ordering::Relaxed), unwritable_outcomes, chord_text_outcomes }
+}
+
+fn norm_how(how: &str) -> String {
+    let h = how.replace(" (core dumped)", "");
+    squash(&h, 40)
+}
+
+pub fn run(ctx: &Ctx) -> Result<Report, String> {
+    let viol = Violations::new();
+    let samples = Samples::new(ctx.seed);
+    let t0 = Instant::now();
+    let p1 = run_part1(ctx, &viol, &samples);
+    let part1_s = t0.elapsed().as_secs_f64();
+
+    // part 2
+    let plan = Plan::new();
+    let mut planned = 0u64;
+    plan.for_each_case(ctx.tier, |_, _| planned += 1);
+    let spec = Spec {
+        prop: "C19",
+        tier: ctx.tier,
+        seed: ctx.seed,
+        shards: ctx.tier.pick(16, 64),
+        parallel: ctx.threads.clamp(1, 16),
+        extra_args: vec![],
+        stall_timeout: Duration::from_secs(STALL_SECS),
+        max_restarts_per_shard: 40,
+        deadline: ctx.start + Duration::from_secs_f64(ctx.wall_cap_s),
+    };
+    let describe = |desc: &[u8], how: &str| -> (String, String, Value) {
+        let text = String::from_utf8_lossy(desc).to_string();
+        match CaseDesc::decode(&text) {
+            Some(c) if c.seed < plan.seeds.len() => {
+                let d = plan.seeds[c.seed].0.name();
+                let w = hostile_witness(&plan, &c);
+                (
+                    format!("hostile:{d}:process-died[{}]:{}", norm_how(how), plan.kinds(&c)),
+                    format!("worker process ended ({how}) while handling {d} document {}", w["mutations"]),
+                    w,
+                )
+            }
+            _ => (format!("hostile:process-died[{}]", norm_how(how)), format!("worker ended ({how}) at unknown case {text}"), json!({"part": "hostile", "case": text})),
+        }
+    };
+    let merged = workers::run_shards(&spec, &describe)?;
+    if let Some(bad) = merged.notes.get("bad_seed") {
+        return Err(format!("C19: seed documents must be valid: {:?}", bad));
+    }
+    let c = |k: &str| merged.counters.get(k).copied().unwrap_or(0);
+    let mut per = serde_json::Map::new();
+    for d in Deser::ALL {
+        let n = d.name();
+        let (ok, err) = (c(&format!("{n}.ok")), c(&format!("{n}.err")));
+        if !merged.capped && (ok == 0 || err == 0) {
+            return Err(format!("C19: vacuous run for {n}: {ok} accepted, {err} rejected"));
+        }
+        per.insert(
+            n.into(),
+            json!({"documents": c(&format!("{n}.documents")), "accepted": ok, "rejected": err, "panicked": c(&format!("{n}.panic")),
+                "accepted_text_route": c(&format!("{n}.text.ok")), "accepted_value_route": c(&format!("{n}.value.ok")),
+                "routes_disagree": c(&format!("{n}.routes_disagree"))}),
+        );
+    }
+    let classes: BTreeSet<String> = merged.notes.get("class").map(|v| v.iter().filter_map(|x| x.as_str().map(String::from)).collect()).unwrap_or_default();
+    let executed = c("pristine") + c("singles") + c("pairs") + c("skipped_inapplicable") + merged.crashes;
+    let complete = !merged.capped && executed == planned;
+    viol.extend(merged.violations);
+
+    let mut all_samples = samples.into_vec();
+    all_samples.extend(merged.samples);
+    let mut r = Report::new("exploration");
+    r.set("evaluations", p1.evaluations + c("evaluations"))
+        .set("distinct_nontrivial", classes.len() as u64)
+        .set(
+            "rule",
+            "part 1: every element of each lattice once (distinct by construction). part 2: documents = seed x mutation (singles) and seed x allowed mutation pair (thorough), \
+             each deserialised from JSON text and from serde_json::Value; evaluations = deserialisations + layout/render runs; distinct_nontrivial = number of distinct \
+             (deserialiser, outcome) classes observed, an outcome being `ok`, `panic` or the error message with digits squashed",
+        )
+        .set("samples", all_samples)
+        .set("exhaustive", complete)
+        .set("capped", merged.capped)
+        .set("part1_cases", json!(p1.counts))
+        .set("part1_wall_s", (part1_s * 100.0).round() / 100.0)
+        .set("unwritable_key_names_observed", json!(p1.unwritable_outcomes))
+        .set("chord_text_outcomes", json!(p1.chord_text_outcomes))
+        .set("hostile_seeds", plan.seeds.len())
+        .set("hostile_single_mutations_per_seed", plan.muts.iter().map(|m| m.len()).collect::<Vec<_>>())
+        .set("hostile_cases_planned", planned)
+        .set("hostile_cases_executed", executed)
+        .set("hostile_singles", c("singles"))
+        .set("hostile_pairs", c("pairs"))
+        .set("hostile_per_deserialiser", Value::Object(per))
+        .set("outcome_classes", classes.iter().take(400).cloned().collect::<Vec<_>>())
+        .set("worker_crashes", merged.crashes)
+        .set("raw_violations", viol.raw_count() + c("raw_violations"));
+    r.assume("serde_json (text parser with its recursion limit of 128, Value deserialiser) and the rasterize crate's own deserialisers are trusted as given; panics inside them are still reported");
+    r.assume(&format!("each document is handled on a thread with a {} MiB stack in a process limited to {} GiB of address space; no progress for {} s counts as a stall", CASE_STACK_BYTES >> 20, AS_LIMIT_BYTES >> 30, STALL_SECS));
+    r.assume("layout/render uses ViewContext::dummy() (glyph support on); `ref` views resolve uid 1 through a ViewCache, one custom view type is registered");
+    r.assume("key names without a spelling of their own (mouse keys, Char of tab/newline/upper case/other symbols, NUMLOCK) are outside 'every chord that can be written'");
+    if ctx.tier == Tier::Quick {
+        r.set("tier_note", "quick: all single mutations; thorough adds every allowed pair of mutations");
+    }
+    r.violations = viol.into_vec();
+    Ok(r)
+}
+
+fn opt_rgba(v: &Value) -> Option<[u8; 4]> {
+    let a = v.as_array()?;
+    Some([a[0].as_u64()? as u8, a[1].as_u64()? as u8, a[2].as_u64()? as u8, a[3].as_u64()? as u8])
+}
+
+fn report_bad(bad: Bad, subject: String) -> (bool, String) {
+    if bad.is_empty() {
+        (false, format!("{subject}: round-trips as expected"))
+    } else {
+        (true, format!("{subject}:\n{}", bad.iter().map(|(k, w)| format!("  [{k}] {w}")).collect::<Vec<_>>().join("\n")))
+    }
+}
+
+pub fn replay(w: &Value) -> Result<(bool, String), String> {
+    match w["part"].as_str().ok_or("witness without part")? {
+        "face" => {
+            let (fg, bg) = (opt_rgba(&w["fg"]), opt_rgba(&w["bg"]));
+            let flags = w["flags"].as_u64().ok_or("flags")? as u8;
+            let ul = w["underline"].as_u64().ok_or("underline")? as u8;
+            let face = make_face(fg, bg, flags, ul);
+            Ok(report_bad(eval_face(face), format!("face {} (expected: printing then parsing, and serialising then deserialising, give the same face)", face_plain(&face))))
+        }
+        "chord" => {
+            let mut keys = vec![];
+            for k in w["keys"].as_array().ok_or("keys")? {
+                let name = name_from_code(k["name"].as_str().ok_or("name")?).ok_or("bad key name")?;
+                keys.push(Key::new(name, KeyMod::from_bits(k["mods"].as_u64().ok_or("mods")? as u32)));
+            }
+            Ok(report_bad(eval_chord(&keys), format!("chord {} (expected: the same chord back)", w["keys"])))
+        }
+        "chord-text" => {
+            let t = w["text"].as_str().ok_or("text")?;
+            let (bad, outcome) = eval_chord_text(t);
+            Ok(report_bad(bad, format!("chord text {t:?} (expected: an error or a chord that round-trips; observed {outcome})")))
+        }
+        "size" => {
+            let h: usize = w["h"].as_str().ok_or("h")?.parse().map_err(|_| "h")?;
+            let wd: usize = w["w"].as_str().ok_or("w")?.parse().map_err(|_| "w")?;
+            Ok(report_bad(eval_size(h, wd), format!("size {h}x{wd}")))
+        }
+        "image" => {
+            let c = ImgCase::from_json(w).ok_or("bad image case")?;
+            Ok(report_bad(eval_image(&c), format!("image view {c:?} (expected: same size and pixels after serialise+deserialise)")))
+        }
+        "image-input" => {
+            let u = |k: &str| w[k].as_u64().map(|x| x as usize).ok_or(format!("missing {k}"));
+            Ok(report_bad(eval_image_input(u("channels")?, u("h")?, u("w")?, u("form")?), "hand-built image document (expected: pixels as laid out in the data)".to_string()))
+        }
+        "hostile" => {
+            let c = CaseDesc::decode(w["case"].as_str().ok_or("case")?).ok_or("bad case descriptor")?;
+            limit_address_space();
+            let handle = std::thread::Builder::new()
+                .stack_size(CASE_STACK_BYTES)
+                .spawn(move || -> Result<(bool, String), String> {
+                    let plan = Plan::new();
+                    let (d, doc, what) = plan.build(&c).ok_or("case does not apply")?;
+                    let started = Instant::now();
+                    let out = exec_doc(d, &doc);
+                    let secs = started.elapsed().as_secs_f64();
+                    let mut text = doc.text();
+                    if text.len() > 600 {
+                        let mut cut = 600;
+                        while !text.is_char_boundary(cut) {
+                            cut -= 1;
+                        }
+                        text.truncate(cut);
+                        text.push_str("...");
+                    }
+                    let mut detail = format!(
+                        "{} document, mutations {:?}\n  document: {}\n  expected: a value or an error from both routes, then layout+render without panic\n  observed: text route -> {}, value route -> {} ({secs:.2}s)",
+                        d.name(), what, text, out.classes[0].1, out.classes[1].1
+                    );
+                    for f in &out.findings {
+                        detail.push_str(&format!("\n  [{}] {}", f.key, f.what));
+                    }
+                    let stalled = secs > STALL_SECS as f64;
+                    if stalled {
+                        detail.push_str("\n  took longer than the stall limit");
+                    }
+                    Ok((!out.findings.is_empty() || stalled, detail))
+                })
+                .map_err(|e| e.to_string())?;
+            match handle.join() {
+                Ok(r) => r,
+                Err(_) => Ok((true, "the case panicked outside the instrumented region".into())),
+            }
+        }
+        "hostile-index" => {
+            // debugging aid: {"part":"hostile-index","index":N,"tier":"thorough"} -> the case
+            let want = w["index"].as_u64().ok_or("index")?;
+            let tier = if w["tier"] == "thorough" { Tier::Thorough } else { Tier::Quick };
+            let plan = Plan::new();
+            let mut found = None;
+            plan.for_each_case(tier, |idx, c| {
+                if idx == want {
+                    found = Some(c);
+                }
+            });
+            let c = found.ok_or("no such index")?;
+            replay(&json!({"part": "hostile", "case": c.encode()}))
+        }
+        other => Err(format!("unknown witness part {other}")),
+    }
 }
